@@ -206,6 +206,64 @@ def chained(camp, rng, n):
             return
 
 
+def two_connections(camp, rng, n):
+    """two clients in one process (vncdotool.api's own example): a capture completes on ITS connection's update only"""
+    import io
+    from PIL import Image
+    from twisted.internet.testing import StringTransport
+    from vncdotool import client as vclient
+
+    def connect(w, h):
+        c = vclient.VNCDoToolClient()
+        c.factory = vclient.VNCDoToolFactory()
+        c.factory.nocursor = True
+        c.makeConnection(StringTransport())
+        c.dataReceived(b"RFB 003.008\n\x01\x01\0\0\0\0" + struct.pack("!HH16sI", w, h, rfbgen.RGB32.block(), 0))
+        return c
+
+    def paint(c, w, h, colour):
+        c.dataReceived(b"\0\0\0\x01" + struct.pack("!HHHHi", 0, 0, w, h, 0) + bytes(colour) * (w * h))
+
+    for i in range(n):
+        w, h = rng.randrange(1, 9), rng.randrange(1, 7)
+        a, b = connect(w, h), connect(w, h)
+        col = lambda: (rng.randrange(256), rng.randrange(256), rng.randrange(256), 0)  # noqa: E731
+        ca, cb = col(), col()
+        if rng.random() < 0.7:
+            paint(a, w, h, ca)
+        b_painted = rng.random() < 0.7
+        if b_painted:
+            paint(b, w, h, cb)
+        buf = io.BytesIO()
+        done, failed = [], []
+        d = b.captureScreen(buf, format="png")
+        d.addCallbacks(done.append, failed.append)
+        ca2 = col()
+        paint(a, w, h, ca2)                   # the OTHER connection's update commits
+        camp.evaluations += 1
+        camp.count("two-connections")
+        camp.nontrivial.add(("two", i, w, h))
+        why = None
+        if done or failed or buf.getvalue():
+            why = (f"a capture pending on connection B {'failed' if failed else 'completed'} when connection A's update was committed "
+                   f"({len(buf.getvalue())} bytes saved{'; ' + repr(failed[0].value) if failed else ''}) - B has received no update since its request")
+        else:
+            cb2 = col()
+            try:
+                paint(b, w, h, cb2)
+            except Exception as e:  # noqa: BLE001
+                why = f"connection B's own update raised {type(e).__name__}: {e}"
+            if why is None and not done:
+                why = "connection B's own update did not complete its capture"
+            elif why is None:
+                im = Image.open(io.BytesIO(buf.getvalue())).convert("RGB")
+                if im.size != (w, h) or set(im.getdata()) != {tuple(cb2[:3])}:
+                    why = f"connection B's capture shows {sorted(set(im.getdata()))[:3]} instead of its own update {tuple(cb2[:3])}"
+        if why:
+            camp.oracle_failures.append({"kind": "oracle", "property": "C06", "case": {"two_connections": i, "size": [w, h]}, "what": why})
+            return
+
+
 def run(tier, seed, model):
     camp = common.Campaign()
     rng = random.Random(seed * 7919 + 6)
@@ -237,6 +295,8 @@ def run(tier, seed, model):
             camp.samples.append({"items": [it[0] if it[0] != "chunk" else f"chunk:{len(it[1])}B" for it in items][:14],
                                  "captures": len(exps)})
     chained(camp, rng, 25 if tier == "quick" else 500)
+    if not camp.oracle_failures:
+        two_connections(camp, rng, 20 if tier == "quick" else 400)
     if model is not None and reqs:
         for ans, (i, r) in zip(model.call_many(reqs), meta):
             ev, fin = canon_model(ans)
@@ -256,6 +316,8 @@ def run(tier, seed, model):
 
 def replay(payload):
     case = payload["case"]
+    if "items" not in case:
+        return True, "replay: chained / two-connection scenario; re-run ./check C06"
     items = [tuple([it[0]] + [bytes.fromhex(x) if isinstance(x, str) else x for x in it[1:]]) for it in case["items"]]
     r = rfbreal.run_script_real(Cfg(variant=1, nocursor=True), items)
     return True, f"replay: final {r['final']}, {len(r['captures'])} captures, saves at {[i for i, e in enumerate(r['events']) if e[0] == 'Save']}"
